@@ -147,3 +147,36 @@ def arg_names(prog, mod, call):
         if k.arg is not None:
             out[k.arg] = k.value
     return out
+
+
+def single_assignments(fn_node):
+    """{name: value} for local names bound exactly once, by a plain
+    ``name = <expr>`` statement (candidates for inlining)."""
+    count, val = {}, {}
+    for node in ast.walk(fn_node):
+        if isinstance(node, ast.Name) and isinstance(node.ctx, ast.Store):
+            count[node.id] = count.get(node.id, 0) + 1
+        elif isinstance(node, ast.arg):
+            count[node.arg] = count.get(node.arg, 0) + 2     # never inline
+    for tgt, v, _ in _assigns(fn_node):
+        if isinstance(tgt, ast.Name):
+            val[tgt.id] = v
+    return {n: v for n, v in val.items() if count.get(n) == 1}
+
+
+def inline(fn_node, expr, depth=4):
+    """The expression with single-assignment temporaries replaced by their
+    defining expressions (``t = g(a); f(t)`` reads as ``f(g(a))``)."""
+    import copy
+    table = single_assignments(fn_node)
+
+    class R(ast.NodeTransformer):
+        def __init__(self, d):
+            self.d = d
+
+        def visit_Name(self, n):
+            if isinstance(n.ctx, ast.Load) and n.id in table and self.d > 0:
+                v = copy.deepcopy(table[n.id])
+                return R(self.d - 1).visit(v)
+            return n
+    return R(depth).visit(copy.deepcopy(expr))
